@@ -131,6 +131,7 @@ type state struct {
 	yields    [MaxTasks + 1]uint64
 	ops       [MaxTasks + 1]uint64
 	noPreempt [MaxTasks + 1]int32
+	aborting  [MaxTasks + 1]bool // an abort fired in the task's current operation and has not been acknowledged
 	pathHash  [MaxTasks + 1]uint64
 	switches  uint64
 
@@ -454,12 +455,19 @@ func yieldKind(site int32, kind uint8, allowFault bool) {
 		s.overBudget = true
 	}
 	// faults
+	// An abort stays pending until the harness acknowledges it (TakeAborted):
+	// code between the fault and the harness may recover() the panic (fmt does
+	// for String/Error methods), so it is raised again at every later yield.
+	if allowFault && s.aborting[me] && s.noPreempt[me] == 0 {
+		panic(Abort{me})
+	}
 	for i := range s.faults {
 		f := &s.faults[i]
 		if allowFault && f.Task == me && f.Yield == y && s.noPreempt[me] == 0 {
 			switch f.Kind {
 			case FaultAbort:
 				logEv(EvAbort, me, -1, site)
+				s.aborting[me] = true
 				panic(Abort{me})
 			case FaultStall:
 				nx := pickOther(me)
@@ -548,6 +556,21 @@ func yieldKind(site int32, kind uint8, allowFault bool) {
 //
 //go:norace
 func callSample(me int32) { s.onSample(me) }
+
+// TakeAborted reports whether an abort fired in the running task since the
+// last call, and clears the pending state. The harness calls it at the end of
+// every operation: the operation counts as aborted even when the panic was
+// swallowed on the way out.
+//
+//go:norace
+func TakeAborted() bool {
+	if !s.active {
+		return false
+	}
+	a := s.aborting[s.cur]
+	s.aborting[s.cur] = false
+	return a
+}
 
 // NoPreempt brackets critical sections of library code (should an edit add
 // locks): a task is never parked while the depth is positive.
